@@ -87,6 +87,20 @@ class SymFS:
             self.crash_hook(self, len(self.effects), (kind, path, detail))
 
     # -- operations ---------------------------------------------------------------------------------------
+    def _lookup_parent(self, path):
+        """POSIX path resolution of the directory part: the first ancestor that is missing gives ENOENT, one that is a regular file
+        gives ENOTDIR"""
+        cur = ""
+        for comp in posixpath.dirname(path).strip("/").split("/"):
+            if not comp:
+                continue
+            cur += "/" + comp
+            n = self.nodes.get(cur)
+            if n is None:
+                raise FileNotFoundError(cur)
+            if n is not DIR:
+                raise NotADirectoryError(cur)
+
     def mkdir(self, path, parents=False, exist_ok=False):
         path = norm(path)
         if path in self.nodes:
@@ -94,19 +108,22 @@ class SymFS:
                 return
             raise FileExistsError(path)
         parent = posixpath.dirname(path)
-        if parent not in self.nodes:
+        try:
+            self._lookup_parent(path)
+        except FileNotFoundError:
             if not parents:
-                raise FileNotFoundError(parent)
+                raise
             self.mkdir(parent, parents=True, exist_ok=True)
-        elif self.nodes[parent] is not DIR:
-            raise NotADirectoryError(parent)
         self.nodes[path] = DIR
         self._effect("mkdir", path)
 
     def unlink(self, path):
         path = norm(path)
-        if path not in self.nodes or self.nodes[path] is DIR:
+        self._lookup_parent(path)
+        if path not in self.nodes:
             raise FileNotFoundError(path)
+        if self.nodes[path] is DIR:
+            raise IsADirectoryError(path)
         del self.nodes[path]
         self._effect("unlink", path)
 
@@ -120,15 +137,32 @@ class SymFS:
     def rename(self, src, dst):
         """os.replace: atomic on POSIX - one effect"""
         src, dst = norm(src), norm(dst)
+        self._lookup_parent(src)
+        self._lookup_parent(dst)
         if src not in self.nodes:
             raise FileNotFoundError(src)
-        if self.nodes.get(dst) is DIR:
+        if src == dst:
+            return
+        if (dst + "/").startswith(src + "/"):
+            raise OSError("cannot move a directory into itself: " + src)    # EINVAL
+        if (src + "/").startswith(dst + "/"):
+            raise OSError("directory not empty: " + dst)                    # ENOTEMPTY: the target is an ancestor of the source
+        s, d = self.nodes[src], self.nodes.get(dst)
+        if s is DIR:
+            if d is not None and d is not DIR:
+                raise NotADirectoryError(dst)
+            if d is DIR and self.children(dst):
+                raise OSError("directory not empty: " + dst)
+        elif d is DIR:
             raise IsADirectoryError(dst)
-        self.nodes[dst] = self.nodes.pop(src)
+        moved = [p for p in self.nodes if p == src or p.startswith(src + "/")]
+        for p in moved:
+            self.nodes[dst + p[len(src):]] = self.nodes.pop(p)
         self._effect("rename", dst, src)
 
     def rmtree(self, path):
         path = norm(str(path))
+        self._lookup_parent(path)
         if path not in self.nodes:
             raise FileNotFoundError(path)
         if self.nodes[path] is not DIR:
@@ -144,6 +178,7 @@ class SymFS:
         path = norm(str(path))
         binary = "b" in mode
         if "r" in mode and "+" not in mode:
+            self._lookup_parent(path)
             n = self.nodes.get(path)
             if n is None:
                 raise FileNotFoundError(path)
@@ -151,9 +186,9 @@ class SymFS:
                 raise IsADirectoryError(path)
             self.reads.append(path)
             return SymFile(self, path, mode, list(n.parts))
-        parent = posixpath.dirname(path)
-        if self.nodes.get(parent) is not DIR:
-            raise FileNotFoundError(parent)
+        self._lookup_parent(path)
+        if "x" in mode and path in self.nodes:
+            raise FileExistsError(path)         # O_EXCL is checked before the type of the node
         if self.nodes.get(path) is DIR:
             raise IsADirectoryError(path)
         if "w" in mode:
@@ -448,7 +483,16 @@ class SymPath:
                 raise
 
     def iterdir(self):
-        return iter(SymPath(c) for c in self._fs().children(self._p))
+        # a generator, as in pathlib of Python 3.12: a missing directory shows at the first step of the iteration
+        fs = self._fs()
+        fs._lookup_parent(norm(self._p))
+        n = fs.nodes.get(norm(self._p))
+        if n is None:
+            raise FileNotFoundError(self._p)
+        if n is not DIR:
+            raise NotADirectoryError(self._p)
+        for c in fs.children(self._p):
+            yield SymPath(c)
 
     def replace(self, target):
         self._fs().rename(self._p, str(target))
